@@ -12,9 +12,11 @@ CFG = {
             "grammar-generated long streams and raw fuzz (incl. invalid UTF-8) with random splits; oracles on the implementation's output: Spec machine (Prints merged), Print width, and for text streams 'a cluster is delivered in pieces only at a read boundary or in front of an invalid byte'; non-trivial = the model delivers something besides EOF, "
             "distinct by (bytes, reads)",
     "trusted_base": ["Spec/VT500.lean: transcription of the Williams VT500 table and the seven documented extensions (reviewed by hand)",
-                     "Model/ParserIO.lean: transcription of utf8.DecodeRune/FullRune and of bufio's fill loop (stdlib, by reading; validated by correspondence; the decoder is characterised "
-                     "independently by the utf8_* theorems and equals the Spec's Table 3-7 decoder); the bodies of readRune/print are interpreted from the regenerated skeletons (readRune_body_eq_model, print_body_eq_model) "
-                     "over this reader model: what is trusted is the meaning given to ReadRune/UnreadRune/ReadByte/Buffered and FirstGraphemeClusterInString = 'split the builder at the oracle's cluster length'",
+                     "Model/ParserIO.lean: transcription of utf8.DecodeRune/FullRune and of bufio's fill loop / ReadRune / UnreadRune / ReadByte / Buffered - since round 4 an explicit hypothesis structure (Model/ParserStdlib.lean: StdlibContract) "
+                     "that the model meets (model_meets_stdlib_contract), that determines the functions (stdlib_contract_determines_*), and that is checked clause by clause against the REAL stdlib on every case of every run "
+                     "(harness/cmd/C02/stdlibcontract.go; counters stdlib-contract-checked / stdlib-contract-broken = 0; a broken clause is a FAIL[stdlib-contract] verdict); the bodies of readRune/print are interpreted from the regenerated skeletons "
+                     "(readRune_body_eq_model, print_body_eq_model, proved on the extracted bodies themselves) over this reader model; trusted: FirstGraphemeClusterInString = 'split the builder at the oracle's cluster length', "
+                     "and that every read fits bufio's free space (4096 bytes; the harness reads at most 4000)",
                      "uniseg is a parameter (clusterAt, widths), computed by the harness with the real library; its prefix hypothesis, the Respects hypothesis (never joins a C0 control: counter oracle-joins-c0 = 0) "
                      "and the width hypothesis of print_width (verdict W!) are checked per case",
                      "extractor recognition of action bodies is by local variable name (a pure rename degrades to unknown: false alarm, never a miss)"],
@@ -33,7 +35,9 @@ CFG = {
                   "(CSI wraps mod 2^64, DCS >= 2^63 => error + nil parameters). Action bodies (collect ... csiDispatch, hook) and the bodies of readRune and print (incl. the Print width) are interpreted from statement skeletons regenerated from the source; "
                   "the interpretation equals the model functions for every reader state, the correspondence driver executes the interpreted bodies with the regenerated table, "
                   "and every Print of every stream is one oracle cluster or a piece cut at a read boundary / in front of an invalid byte (print_takes_one_cluster), with StringWidth of its grapheme (print_width).",
-    "level_note": "Proved: see notes/C02.md tables (Props/C02, C02Text, C02Refine, C02Acts, Witness/F102: 89 theorems). Validated by correspondence only: the meaning of the bufio/utf8 stdlib calls in Model/ParserIO.lean / ParserReaderInterp.lean. "
+    "level_note": "Proved: see notes/C02.md tables (Props/C02, C02Text, C02Refine, C02Acts, C02Stdlib, Witness/F102: 96 theorems). Round 4: readRune_body_eq_model / print_body_eq_model / csiDispatch_body / hook_body are proved by evaluating the interpreter on the "
+                  "regenerated bodies (no transcribed skeleton copy: a meaning-preserving reorder does not alarm, a meaning-changing one fails exactly that theorem; reader_skeleton_recognised = fully recognised). "
+                  "Validated by run-time contract check: the meaning of the bufio/utf8 stdlib calls (StdlibContract, every clause on every case against the real stdlib). "
                   "False with witness (recorded finding): F102 ST of an empty string delivered (negation of model_refines_spec_full in Witness/F102.lean; pinned by a baseline test). "
                   "Fixed in /repo: F05, F07, F102b, F102c (44d8b73), F102d (6b7d19e) - their witnesses are regression theorems and corpus cases now.",
     "timeout": 1800,
